@@ -295,11 +295,11 @@ def full_empty_tests(F, R):
     """The fullness / emptiness tests use the same capacity as the slot arithmetic."""
     for prefix, nm in ((IQ, 'index_queue'), (SOQ, 'overflowing')):
         push, pop = F.fn(prefix + 'push'), F.fn(prefix + 'pop')
-        eqs = [s for s in push.sites if s.i != 'T' and s.node[0] == 'a' and s.node[2][0] == 'bin' and s.node[2][1] == 'Eq']
+        eqs = [s for s in push.sites if s.i != 'T' and s.node[0] == 'a' and s.node[2][0] == 'bin' and s.node[2][1] in ('Eq', 'Ne')]   # `a == b` or its negation `a != b`: the compared terms are judged
         full = [sym_nstr(core.sym_norm((core._BIN['Eq'], sym(push, s.node[2][2]), sym(push, s.node[2][3])))) for s in eqs]
         ok = any(re.search(r'write_position', x) and re.search(r'read_position', x) and 'self.capacity' in x and '+ 1' not in x.replace('write_position + 1', '') for x in full)
         R.ob('SYM-EQ', 'SYM-EQ::%s::is_full=write==read+capacity' % fnkey(push), ok, 'fullness test(s): %s ; required write_position == read_position + capacity (exactly `capacity` elements fit)' % [x[:150] for x in full], eqs[0].where if eqs else push.file, push)
-        eqs = [s for s in pop.sites if s.i != 'T' and s.node[0] == 'a' and s.node[2][0] == 'bin' and s.node[2][1] == 'Eq']
+        eqs = [s for s in pop.sites if s.i != 'T' and s.node[0] == 'a' and s.node[2][0] == 'bin' and s.node[2][1] in ('Eq', 'Ne')]
         emp = [sym_nstr(core.sym_norm((core._BIN['Eq'], sym(pop, s.node[2][2]), sym(pop, s.node[2][3])))) for s in eqs]
         ok = any('write_position' in x and 'read_position' in x and '+' not in x and '-' not in x for x in emp)
         R.ob('SYM-EQ', 'SYM-EQ::%s::is_empty=read==write' % fnkey(pop), ok, 'emptiness test(s): %s ; required read_position == write_position' % [x[:150] for x in emp], eqs[0].where if eqs else pop.file, pop)
